@@ -40,6 +40,8 @@ FIRST_MISSED = {
     "C10-4": "no check reported it -> GBNHS-6: the handshake timeout is re-armed on every path from a wait back to itself",
     "C11-3": "no check reported it -> EXCL: close(quit) comes after the gbn connection and both relay streams are released",
     "C11-4": "no check reported it -> SIDFRESH: after the closer, no return and no Refresh before the old connection is forgotten",
+    "C15-3": "no check reported it -> RDC-2: the payload is taken out of a message struct created anew for every receive",
+    "C15-4": "own property silent (reported by C16 FLUSH) -> C15 RDC-3 shares the WriteMessage nothing-pending guard",
     "C06-3": "no check reported it -> RATELIMIT: once lastResend is refreshed the packets are transmitted",
 }
 
